@@ -118,8 +118,12 @@ Definition save_index (c1 c2 : list nat) (m : rmap) : list desc :=
   let p1 := save_pass1 (shuffle c1 m) in
   p1 ++ save_pass2 (map d_node p1) (shuffle c2 m).
 
-Record orders := mkOrd { o_save1 : list nat; o_save2 : list nat; o_gc1 : list nat; o_gc2 : list nat }.
-Definition ord0 := mkOrd [] [] [] [].
+(* iteration orders of the Go maps an operation ranges over: the two passes of saveIndex,
+   the two passes of gcIndex, and, per iteration of Delete's queue loop, the predecessor
+   set read by registry.Referrers and the successor set read by graph.Memory.Remove *)
+Record orders := mkOrd { o_save1 : list nat; o_save2 : list nat; o_gc1 : list nat; o_gc2 : list nat;
+                         o_del : list (list nat * list nat) }.
+Definition ord0 := mkOrd [] [] [] [] [].
 
 Inductive result := ROk | RAlreadyExists | RNotFound | RInvalidReference | RHang | ROutOfFuel.
 
@@ -202,7 +206,8 @@ Section Universe.
       else (maybe_save cfg o (mkStore (blobs s) (res_untag r (res s)) (gr s) (disk s)), ROk)
     end.
 
-  (* Store.delete of node k (content.Equal = same node) *)
+  (* Store.delete of node k (content.Equal = same node).  The untag loop ranges over the
+     resolver map; its result does not depend on the order (each step filters one key). *)
   Definition delete1 (cfg : config) (o : orders) (k : nat) (s : store) : store * list nat * bool :=
     let refs := map fst (filter (fun kv => Nat.eqb (d_node (snd kv)) k) (r_index (res s))) in
     let m := fold_left (fun m r => res_untag r m) refs (res s) in
@@ -221,24 +226,27 @@ Section Universe.
   Definition referrers (s : store) (k : nat) : list nat :=
     filter (fun p => match subj p with Some x => Nat.eqb x k | None => false end) (predecessors (gr s) k).
 
-  Fixpoint delete_loop (fuel : nat) (cfg : config) (o : orders) (queue : list nat) (s : store) : store * result :=
+  Fixpoint delete_loop (fuel : nat) (cfg : config) (o : orders) (ds : list (list nat * list nat))
+                       (queue : list nat) (s : store) : store * result :=
     match fuel with
     | 0 => (s, ROutOfFuel)
     | S f =>
       match queue with
       | [] => (s, ROk)
       | head :: q =>
-        let q1 := if autogc cfg && mf head then q ++ referrers s head else q in
+        let cs := hd ([], []) ds in
+        let q1 := if autogc cfg && mf head then q ++ shuffle (fst cs) (referrers s head) else q in
         match delete1 cfg o head s with
         | (s', _, false) => (s', RNotFound)
         | (s', dang, true) =>
-          let q2 := if autogc cfg then q1 ++ filter (fun d => negb (is_tagged d s')) dang else q1 in
-          delete_loop f cfg o q2 s'
+          let q2 := if autogc cfg
+                    then q1 ++ filter (fun d => negb (is_tagged d s')) (shuffle (snd cs) dang) else q1 in
+          delete_loop f cfg o (tl ds) q2 s'
         end
       end
     end.
   Definition st_delete (cfg : config) (o : orders) (k : nat) (s : store) : store * result :=
-    delete_loop (S (S N) * S (S N)) cfg o [k] s.
+    delete_loop (S (S N) * S (S N)) cfg o (o_del o) [k] s.
 
   (* ---------- gcIndex ---------- *)
   Record gcacc := mkGc { g_res : resolver; g_gr : list nat; g_tagged : list nat }.
@@ -356,6 +364,19 @@ Section Universe.
   Definition wf_op (o : op) : Prop := match o with OTag d r => wf_tag d r | _ => True end.
   Definition wf_history (h : list (op * orders)) : Prop := Forall (fun oo => wf_op (fst oo)) h.
   Definition no_reopen (h : list (op * orders)) : Prop := Forall (fun oo => fst oo <> OReopen) h.
+
+  (* every read-write reopen happens right after a SaveIndex (or another reopen, or on the
+     fresh store): what "AutoSaveIndex off + SaveIndex" allows *)
+  Fixpoint reopen_after_save (saved : bool) (h : list (op * orders)) : Prop :=
+    match h with
+    | [] => True
+    | oo :: h' =>
+      match fst oo with
+      | OReopen => saved = true /\ reopen_after_save true h'
+      | OSave => reopen_after_save true h'
+      | _ => reopen_after_save false h'
+      end
+    end.
 
   (* store [a] answers every public query like store [b]: tag list, tag -> descriptor up
      to the ref-name annotation, Resolve by digest, Exists/Fetch, Predecessors
